@@ -148,6 +148,19 @@ func typeKey(t types.Type) string {
 	return "_" + sanitize(types.TypeString(t, func(p *types.Package) string { return shortPkg(p.Path()) }))
 }
 
+// heapTypeKey names the heap arrays of a type: generic types get one set of arrays
+// per instantiation (the element sorts differ).
+func heapTypeKey(t types.Type) string {
+	if n, ok := types.Unalias(t).(*types.Named); ok && n.TypeArgs() != nil && n.TypeArgs().Len() > 0 {
+		var as []string
+		for i := 0; i < n.TypeArgs().Len(); i++ {
+			as = append(as, sanitize(types.TypeString(n.TypeArgs().At(i), func(p *types.Package) string { return shortPkg(p.Path()) })))
+		}
+		return typeKey(t) + "[" + strings.Join(as, ",") + "]"
+	}
+	return typeKey(t)
+}
+
 func sanitize(s string) string {
 	var b strings.Builder
 	for _, r := range s {
